@@ -490,7 +490,7 @@ func main() {
 	a := wire.ParseArgs()
 	rng := wire.Rng(a.Seed)
 	w := wire.NewWriter("C05", a.Seed, a.Tier)
-	w.Rule = "typed generator over node/way/relation/changeset/note/user/bounds and OSM/Change containers: every optional part present with probability p in {0,0.3,0.7,1} plus single-field sweeps; each value marshalled and its own output unmarshalled under three codec configurations (default, counting custom codec, reformatting custom codec); independently written osmjson documents (version number/string/absent, unknown keys, shuffled keys, random whitespace/escapes) and single-fault documents. distinct = distinct token streams; trivial = all-zero values."
+	w.Rule = "typed generator over node/way/relation/changeset/note/user/bounds and OSM/Change containers: every optional part present with probability p in {0,0.3,0.7,1} plus single-field sweeps; each value marshalled and its own output unmarshalled under three codec configurations (default, counting custom codec, reformatting custom codec); independently written osmjson documents (version number/string/absent, unknown keys, shuffled keys, keys spelled in another case, decoy duplicate keys, Overpass lowercase bounds, random whitespace/escapes) and single-fault documents. distinct = distinct token streams; trivial = all-zero values."
 	nOSM, nElem, nDoc, nBad, nChange := 16, 8, 40, 40, 6
 	if a.Tier == "thorough" {
 		nOSM, nElem, nDoc, nBad, nChange = 200, 80, 500, 400, 60
@@ -611,10 +611,12 @@ func main() {
 			w.Add(c)
 		}
 		w.Count("doc:version=" + dg.versionForm)
+		w.Stats["doc:recased_keys"] += dg.recased
+		w.Stats["doc:overpass_bounds"] += dg.overpass
 	}
 	// 4. single-fault documents (no expectation: model vs implementation only)
 	for i := 0; i < nBad; i++ {
-		dg := &docGen{rng: rng, p: 0.7, minElems: 1}
+		dg := &docGen{rng: rng, p: 0.7, minElems: 1, plain: true}
 		doc, _ := dg.document()
 		fault := dg.damage(doc, i)
 		var b bytes.Buffer
